@@ -501,6 +501,10 @@ func (m *ConnectMessage) decodeMessage(src []byte) (int, error) {
 	var err error
 	n, total := 0, 0
 
+	// The message may have been decoded into before: the optional fields are
+	// only assigned below when the packet carries them.
+	m.willTopic, m.willMessage, m.username, m.password = nil, nil, nil, nil
+
 	m.protoName, n, err = readLPBytes(src[total:])
 	total += n
 	if err != nil {
